@@ -90,7 +90,7 @@ PROPS = {
     "C17": {
         "module": "Cdecao.Props.C17",
         "theorems": ["Props.C17_rooms_le_opt"],
-        "streams": ["roompairs", "solve-rooms"],
+        "streams": ["roompairs", "solve-rooms", "node-rooms"],
     },
     "C18": {
         "module": "Cdecao.Props.C18",
